@@ -413,20 +413,7 @@ def run(ctx):
             if len(val) != 1 or not mut_ or not all(f.dominates(val[0], m_) for m_ in mut_):
                 r.violate(key + "|validate-first", "set_attribute touches the attribute list before the name was validated", f.loc())
 
-    # raw bytes are invalidated only after the (fallible) edit succeeded: no set_modified() from which an Err return is reachable
-    for nm in ("StartTag::set_attribute", "StartTag::set_name", "EndTag::set_name", "Comment::set_text", "Element::set_tag_name", "StartTag::set_name_raw"):
-        fs_ = mir.by_key.get(nm, [])
-        for f in fs_:
-            if mir.is_test_fn(f):
-                continue
-            errs = set(f.err_return_blocks())
-            sm_ = [bi for bi, t in f.calls(r"Spanned::set_modified$")]
-            if not sm_ and not errs:
-                continue
-            key = nm + "|raw-invalidated-after-success"
-            r.inst(key, sample={"set_modified_calls": len(sm_), "err_returns": len(errs)})
-            if any(eb in f.reachable_blocks(b_) for b_ in sm_ for eb in errs):
-                r.violate(key, f"{nm} calls raw.set_modified() on a path that can still return an error: a rejected name/value leaves the token's attributes untouched but its original bytes are dropped, so the tag is re-serialised (quotes, spacing, line breaks normalised) although the call failed", f.loc())
+    clause_raw_invalidated_after_success(r, mir)
 
     # ------------------------------------------------------------------ R08.7 (shared with C16 R16.2)
     # a validated value must end up in the attribute that a re-parse reports: set_attribute replaces whatever the spelling
@@ -443,7 +430,28 @@ def run(ctx):
     from .c07 import rule_edits_not_lost
     rule_edits_not_lost(ctx, mir, rid="R08.9")
 
+    # ------------------------------------------------------------------ R08.10 (= R07.2)
+    from .c07 import rule_element_ops
+    rule_element_ops(ctx, idx, rid="R08.10")
+
     ctx.not_decided += ["differences between lol-html's tokenizer and other HTML parsers beyond C03", "decoding of the output under another encoding than the document's (cross-encoding confusion)"]
     return ("Writer/reader agreement decided as language inclusions between the serialiser's reject/escape sets (read from the expanded source) and the "
             "tokenizer automaton extracted from the same tree: exhaustive over all 256 bytes for names, values and body text, and a DFA inclusion "
             "(product construction, %d-state comment reader) for comment text." % (len(order)))
+
+
+def clause_raw_invalidated_after_success(r, mir):
+    # raw bytes are invalidated only after the (fallible) edit succeeded: no set_modified() from which an Err return is reachable
+    for nm in ("StartTag::set_attribute", "StartTag::set_name", "EndTag::set_name", "Comment::set_text", "Element::set_tag_name", "StartTag::set_name_raw"):
+        fs_ = mir.by_key.get(nm, [])
+        for f in fs_:
+            if mir.is_test_fn(f):
+                continue
+            errs = set(f.err_return_blocks())
+            sm_ = [bi for bi, t in f.calls(r"Spanned::set_modified$")]
+            if not sm_ and not errs:
+                continue
+            key = nm + "|raw-invalidated-after-success"
+            r.inst(key, sample={"set_modified_calls": len(sm_), "err_returns": len(errs)})
+            if any(eb in f.reachable_blocks(b_) for b_ in sm_ for eb in errs):
+                r.violate(key, f"{nm} calls raw.set_modified() on a path that can still return an error: a rejected name/value leaves the token's attributes untouched but its original bytes are dropped, so the tag is re-serialised (quotes, spacing, line breaks normalised) although the call failed", f.loc())
